@@ -405,14 +405,15 @@ OkStep == \/ LcBegin \/ NtBegin
           \/ NtListClaims("ok") \/ NtDeleteClaim("ok") \/ NtReady("ok") \/ NtTaint("ok") \/ NtDrain("ok") \/ NtVolumes("ok")
           \/ NtProvDelete("ok") \/ NtPatch("ok") \/ NtRemoveFin("ok")
 FairSpec == /\ Spec
-            /\ WF_vars(LcBegin) /\ WF_vars(NtBegin)
+            \* (strong fairness where an action is disabled while the other controller's reconcile is in flight)
+            /\ SF_vars(LcBegin) /\ SF_vars(NtBegin)
             /\ \A f \in {"ok"} : /\ WF_vars(LcAnnotate(f)) /\ WF_vars(LcNodes(f)) /\ WF_vars(LcDeleteNode(f))
                                  /\ WF_vars(LcProvDelete(f)) /\ WF_vars(LcPatchIT(f)) /\ WF_vars(LcRemoveFin(f))
                                  /\ WF_vars(NtListClaims(f)) /\ WF_vars(NtDeleteClaim(f)) /\ WF_vars(NtReady(f))
                                  /\ WF_vars(NtTaint(f)) /\ WF_vars(NtDrain(f)) /\ WF_vars(NtVolumes(f))
                                  /\ WF_vars(NtProvDelete(f)) /\ WF_vars(NtPatch(f)) /\ WF_vars(NtRemoveFin(f))
-            /\ \A p \in Pods : WF_vars(QRec(p)) /\ WF_vars(pod[p].st \in {"term", "stuck"} /\ PodGone(p))
-            /\ WF_vars(InstGone) /\ WF_vars(VolumeDetach) /\ WF_vars(TgpElapses) /\ WF_vars(DrainTimePasses)
+            /\ \A p \in Pods : SF_vars(QRec(p)) /\ SF_vars(pod[p].st \in {"term", "stuck"} /\ PodGone(p))
+            /\ SF_vars(InstGone) /\ SF_vars(VolumeDetach) /\ SF_vars(TgpElapses) /\ SF_vars(DrainTimePasses)
 
 \* ---------------------------------------------------------------- properties
 TypeOK == /\ inst \in {"none", "running", "terminating", "gone"} /\ faults \in 0..MaxFaults
